@@ -10,15 +10,17 @@
 //!   (`tbg call same cpre obs`) and emits the canonical line, so a replay never carries stale observations.
 //!   Reply `ded=<caller after deduct_caller> cpost=<caller final> bpost=<beneficiary final> diff=<Σpre−Σpost>`
 //!   with Σ over the WHOLE database before / after the commit.
-//!   obs = class,gas_used,gas_refunded,cend,bend,sdburn,lateburn (or `rejected`): cend / bend are the
+//!   obs = class,gas_used,gas_refunded,cend,bend,sdburn,lateburn,wraps (or `rejected`): cend / bend are the
 //!   caller's / beneficiary's balances when the first frame has returned (Inspector, outermost `*_end`),
 //!   sdburn the values of the SELFDESTRUCT notifications with contract == target that were not reverted,
 //!   lateburn the balance that accounts marked self-destructed still hold when the state is committed
-//!   (ether sent to an account after it self-destructed in the same transaction is deleted with it).
+//!   (ether sent to an account after it self-destructed in the same transaction is deleted with it),
+//!   wraps the number of non-reverted SELFDESTRUCTs whose beneficiary credit `+=` wrapped around 2^256 (only
+//!   possible in pre-states whose total exceeds 2^256; each destroys exactly 2^256 wei, `selfdestruct_overflow_destroys`).
 use crate::c06;
 use crate::*;
 use revm::db::{CacheDB, EmptyDB};
-use revm::interpreter::{CallInputs, CallOutcome, CreateInputs, CreateOutcome, EOFCreateInputs, InstructionResult};
+use revm::interpreter::{CallInputs, CallOutcome, CreateInputs, CreateOutcome, EOFCreateInputs, InstructionResult, Interpreter};
 use revm::primitives::{
     AccessListItem, AccountInfo, Address, Authorization, BlobExcessGasAndPrice, Bytecode, Bytes, Env, ExecutionResult,
     HashMap, RecoveredAuthority, RecoveredAuthorization, SpecId, TxKind, B256, GAS_PER_BLOB, KECCAK_EMPTY, U256,
@@ -373,8 +375,11 @@ struct Obs {
     ded: Option<U256>,
     cend: U256,
     bend: U256,
-    frames: Vec<Vec<U256>>,
-    survived: Vec<U256>,
+    /// per open frame: burns (Some(value)) and credit wraps (None) of completed SELFDESTRUCTs
+    frames: Vec<Vec<Option<U256>>>,
+    survived: Vec<Option<U256>>,
+    /// (contract, beneficiary, their balances) seen at the SELFDESTRUCT instruction about to execute
+    pending_sd: Option<(Address, Address, U256, U256)>,
     // distribution
     sd_self: u64,
     sd_other: u64,
@@ -414,6 +419,15 @@ impl Obs {
     }
 }
 impl<DB: Database> Inspector<DB> for Obs {
+    fn step(&mut self, interp: &mut Interpreter, ctx: &mut EvmContext<DB>) {
+        if interp.current_opcode() == 0xff {
+            if let Ok(t) = interp.stack().peek(0) {
+                let target = Address::from_word(B256::from(t.to_be_bytes::<32>()));
+                let contract = interp.contract.target_address;
+                self.pending_sd = Some((contract, target, self.bal(ctx, contract), self.bal(ctx, target)));
+            }
+        }
+    }
     fn call(&mut self, ctx: &mut EvmContext<DB>, _i: &mut CallInputs) -> Option<CallOutcome> {
         self.enter(ctx);
         None
@@ -449,11 +463,19 @@ impl<DB: Database> Inspector<DB> for Obs {
         if contract == target {
             self.sd_self += 1;
             if let Some(f) = self.frames.last_mut() {
-                f.push(value);
+                f.push(Some(value));
             }
         } else {
             self.sd_other += 1;
+            if let Some((c, t, bc, bt)) = self.pending_sd {
+                if c == contract && t == target && bt.checked_add(bc).is_none() {
+                    if let Some(f) = self.frames.last_mut() {
+                        f.push(None);
+                    }
+                }
+            }
         }
+        self.pending_sd = None;
     }
 }
 
@@ -567,10 +589,15 @@ pub fn exec_tx(tx: &Tx) -> TxOut {
             let bpost = fin(&tx.cb);
             let o = &evm.context.external;
             let mut sd = Big::default();
+            let mut wraps = 0u64;
             for v in &o.survived {
-                sd.add(*v);
+                match v {
+                    Some(v) => sd.add(*v),
+                    None => wraps += 1,
+                }
             }
-            let obs = format!("{},{:x},{:x},{},{},{},{}", class, gas_used, gas_refunded, hx(o.cend), hx(o.bend), sd.hex(), late.hex());
+            let obs = format!("{},{:x},{:x},{},{},{},{},{:x}", class, gas_used, gas_refunded, hx(o.cend), hx(o.bend), sd.hex(), late.hex(), wraps);
+            if wraps > 0 { stats.push("selfdestruct-credit-wrapped".into()); }
             let ded = o.ded.unwrap_or_default();
             stats.push(format!("class:{}", class));
             if o.sd_self > 0 { stats.push("sd:self".into()); }
